@@ -24,6 +24,12 @@ var c18Named = map[string]bool{"RecordMsg": true, "LapMsg": true, "SessionMsg": 
 
 func runC18(c *Ctx, r *Report) {
 	info := c.fit.TypesInfo
+	c18ExpansionCalled(c, r)
+	c18Rest(c, r, info)
+}
+
+// c18ExpansionCalled: R1, shared with C11 (the partial File of a failed decode holds expanded messages).
+func c18ExpansionCalled(c *Ctx, r *Report) {
 	// ---- R1 ---------------------------------------------------------------------------
 	nArms := 0
 	var others []string
@@ -53,7 +59,9 @@ func runC18(c *Ctx, r *Report) {
 	sort.Strings(others)
 	r.set("other_types_with_expandComponents", others)
 	r.need("arms of component-bearing messages", nArms, 10)
+}
 
+func c18Rest(c *Ctx, r *Report, info *types.Info) {
 	// ---- R2 ---------------------------------------------------------------------------
 	nSlices, nBodies := 0, 0
 	sc := c.fit.Types.Scope()
